@@ -283,7 +283,7 @@ def build_corpus(config, n, seed):
              '1 = 2', '$a != $b', '$x = 1 and $y != 2', "'a\\tb' = $s",
              '$.a = $.b', 'not $a = $b', '[1 = 1, 2 != 3]',
              '$x + ' + '7' * 4400, '[' + '9' * 4500 + ', 1]', '1 +', '(2',
-             '[1,'] + [t for g in FOCUS_GROUPS for t in g]
+             '[1,'] + [t for g in FOCUS_GROUPS for t in g] + BURST_TEXTS
     if config == 'delegates':
         texts += ['$(1)', '(f)(2, 3)']
     if config == 'custom':
@@ -372,6 +372,10 @@ def prepare_replay_case(case):
     core.import_yaql()
     want = {}
     for c in [case] + list(case.get('prelude', [])):
+        if c.get('burst'):
+            want.setdefault(c.get('config', 'default'), [])
+            if c['burst'][0] not in want[c.get('config', 'default')]:
+                want[c.get('config', 'default')].append(c['burst'][0])
         for task in c.get('tasks', []):
             for op in task:
                 if isinstance(op, (list, tuple)) and op and \
@@ -453,6 +457,13 @@ def _unrank(idx, a, b):
                 out.append(1)
                 b -= 1
     return out
+
+
+# texts a confused client keeps sending (the same malformed input again and
+# again) before ordinary use goes on
+BURST_TEXTS = ['((((1', 'f(g(h(1', '[[[[', '(2', 'f(', '1 +', '$.a.', "'abc",
+               '{{{', '((1 + 2) * (3', '[1, (2, [3', '$a.b(c(', '1 +* 2',
+               '"x\\', '`a', '1 ) ) )', 'f(1))']
 
 
 FOCUS_GROUPS = [
@@ -566,7 +577,9 @@ def gen_case(seeds, params, index):
     return {'config': config, 'flavour': flavour, 'preempt': preempt,
             'mode': 'sampled', 'tasks': tasks, 'sched': spec, 'cold': cold,
             'same_thread_names': w.random() < 0.3,
-            'keep': w.random() < 0.25}
+            'keep': w.random() < 0.25,
+            'burst': [w.choice(BURST_TEXTS), w.choice([10, 30, 60, 150])]
+            if w.random() < 0.04 else None}
 
 
 # ---------------------------------------------------------------------------
@@ -685,6 +698,20 @@ def _execute_once(case, stats):
             return outs
         return fn
 
+    viols = []
+    if case.get('burst') and flavour == 'parse':
+        btext, bn = case['burst']
+        bexp = ref(config, btext)
+        for i in range(bn):
+            got = outcome_of(engine, btext)
+            if got != bexp:
+                viols.append({
+                    'key': 'C01:outcome-differs-from-fresh-engine',
+                    'clause': 'a parse returns the tree / error the text '
+                              'produces on a fresh engine',
+                    'detail': {'kind': 'burst', 'repetition': i,
+                               'text': btext, 'expected': bexp, 'got': got}})
+                break
     for tid, ops in enumerate(case['tasks']):
         baton.add(mk(tid, ops))
     if case.get('keep'):
@@ -703,7 +730,6 @@ def _execute_once(case, stats):
         raise core.HarnessError('C01 run aborted: %s' % baton.aborted)
     if 'schedule' not in case:
         case['schedule'] = baton.recorded
-    viols = []
     nfail_then_ok = 0
     for tid, ops in enumerate(case['tasks']):
         failed_before = False
@@ -745,6 +771,11 @@ def _execute_once(case, stats):
     stats.inc('fault.context_switches', baton.switches)
     stats.inc('probe.switch_while_two_parses_in_flight', probe['mid2'])
     stats.inc('parses', sum(len(o) for o in case['tasks']))
+    if case.get('burst'):
+        stats.inc('fault.malformed_input_burst')
+        stats.inc('parses', case['burst'][1])
+    if case.get('keep'):
+        stats.inc('fault.host_keeps_parsed_statements')
     stats.inc('flavour.%s.%s.%dtasks' % (flavour, case.get('preempt'), ntasks))
     stats.inc('config.' + config)
     if case.get('cold'):
